@@ -475,13 +475,13 @@ fn gen(tier: &str, seed: u64, out: &mut dyn FnMut(String)) {
     let mut k = 0usize;
     for sa in &base { for sb in &base {
         if sa == sb { continue; }
+        k += 1;
+        let (ty, bt, ct) = ([ARITH_TY[k % 6]], [BIT_TY[k % 11]], [CMP_TY[k % 9]]);
         if prod(sa) == prod(sb) {
-            all_forms(&mut fx, sa, sb, &ARITH_TY, &BIT_TY, &CMP_TY, out);
-        } else {
-            k += 1;
-            if thorough || k % 3 == 0 {
-                all_forms(&mut fx, sa, sb, &[ARITH_TY[k % 6]], &[BIT_TY[k % 11]], &[CMP_TY[k % 9]], out);
-            }
+            if thorough { all_forms(&mut fx, sa, sb, &ARITH_TY, &BIT_TY, &CMP_TY, out); }
+            else { all_forms(&mut fx, sa, sb, &ty, &bt, &ct, out); }
+        } else if thorough || k % 4 == 0 {
+            all_forms(&mut fx, sa, sb, &ty, &bt, &ct, out);
         }
     } }
 
